@@ -32,6 +32,17 @@ pub fn main(args: &[String]) -> i32 {
             let r = (|| -> wow_mpq::Result<()> { let mut m = MutableArchive::open(dest)?; m.remove_file("dir\\file2.dat")?; m.compact()?; Ok(()) })();
             match r { Ok(()) => { println!("OK"); 0 } Err(e) => { println!("ERR {e}"); 1 } }
         }
+        Some("mk11") => {
+            // build an archive whose entries carry the given (hex-encoded, UTF-8) names; content = "content:<hex>"
+            let (dest, namesfile) = (&args[1], &args[2]);
+            let mut b = ArchiveBuilder::new().listfile_option(ListfileOption::Generate);
+            for l in std::fs::read_to_string(namesfile).unwrap_or_default().lines() {
+                let name = String::from_utf8(crate::common::unhex(l)).unwrap_or_default();
+                if name.is_empty() { continue; }
+                b = b.add_file_data(format!("content:{l}").into_bytes(), &name);
+            }
+            match b.build(dest) { Ok(()) => 0, Err(e) => { println!("ERR {e}"); 1 } }
+        }
         Some("remove") => {
             // preparation step for compact (not traced): remove one file and flush, leaving reclaimable space
             let dest = &args[1];
